@@ -13,10 +13,12 @@
     free of orphans (`C17_disconnect_clean`, `C17_no_orphans`) — under index consistency, which
     `Distinct` guarantees (MM/Props/C16.lean).  The pinned code cleaned only the TCP table
     (`C17_pinned_udp_leak`, repaired by fixes/C17-*.patch).
-  * exit/forward handlers: `connCount = len(connections)` is an invariant of every `Distinct`
-    history (`C17_count_matches`), so an empty map means a zero counter.
-  * without `Distinct` the statement is false (`C17_refuted`): bare stream-id keys again (known finding
-    shared with C16).
+  * exit/forward handlers (repaired by fixes/C17-teardown-compares-record.patch): `connCount =
+    len(connections)` is an invariant of EVERY history (`C17_count_matches`), so an empty map means a
+    zero counter (`C17_handlers_return_to_empty`), and a read loop that ends late removes only its own
+    record (`C17_late_teardown_spares_newer_record`).
+  * the relay table still leaves an orphan under a bare-id collision (`C17_refuted_relay_orphan`,
+    known finding shared with C16).
 -/
 import MM.Lemmas.C16
 import MM.Props.C16
@@ -241,37 +243,51 @@ structure CountOk (h : Handler) : Prop where
   nodup : h.conns.keys.Nodup
   count : h.count = h.conns.length
 
-/-- `Distinct` history: a stream is only opened under an id that has no live record. -/
-def okRun : Handler → List Op → Prop
-  | _, [] => True
-  | h, o :: os =>
-    (match o with
-      | .opened id _ => h.conns.get id = none
-      | _ => True) ∧ okRun (h.apply o).1 os
-
 theorem countOk_closeConn {h : Handler} (hc : CountOk h) (id p : Nat) : CountOk (h.closeConn id p).1 := by
   unfold Handler.closeConn Handler.remove
   cases hg : h.conns.get id with
   | none => simpa [hg] using hc
   | some c =>
-    simp only [hg]
+    simp only []
     refine ⟨Map.nodup_del _ _ hc.nodup, ?_⟩
     have := length_del hc.nodup hg
     have h2 := hc.count
     simp only
     omega
 
-theorem countOk_apply {h : Handler} (hc : CountOk h) (o : Op)
-    (hd : match o with | .opened id _ => h.conns.get id = none | _ => True) :
-    CountOk (h.apply o).1 := by
+theorem countOk_closeRecord {h : Handler} (hc : CountOk h) (c : Conn) : CountOk (h.closeRecord c).1 := by
+  unfold Handler.closeRecord
+  cases hg : h.conns.get c.id with
+  | none => exact ⟨hc.nodup, hc.count⟩
+  | some cur =>
+    simp only []
+    split
+    · refine ⟨Map.nodup_del _ _ hc.nodup, ?_⟩
+      have := length_del hc.nodup hg
+      have h2 := hc.count
+      simp only
+      omega
+    · exact ⟨hc.nodup, hc.count⟩
+
+theorem countOk_apply {h : Handler} (hc : CountOk h) (o : Op) : CountOk (h.apply o).1 := by
   cases o with
   | opened id peer =>
     simp only [Handler.apply, Handler.opened]
-    refine ⟨Map.nodup_set _ _ _ hc.nodup, ?_⟩
-    have : h.conns.del id = h.conns := length_del_none hd
-    have h2 := hc.count
-    simp only [Map.set, this, List.length_cons]
-    omega
+    cases hg : h.conns.get id with
+    | some old =>
+      simp only []
+      refine ⟨Map.nodup_set _ _ _ hc.nodup, ?_⟩
+      have := length_del hc.nodup hg
+      have h2 := hc.count
+      simp only [Map.set, List.length_cons]
+      omega
+    | none =>
+      simp only []
+      refine ⟨Map.nodup_set _ _ _ hc.nodup, ?_⟩
+      have : h.conns.del id = h.conns := length_del_none hg
+      have h2 := hc.count
+      simp only [Map.set, this, List.length_cons]
+      omega
   | openFail id peer => exact hc
   | data id p s =>
     simp only [Handler.apply, Handler.data]
@@ -285,34 +301,41 @@ theorem countOk_apply {h : Handler} (hc : CountOk h) (o : Op)
   | close id p => exact countOk_closeConn hc _ _
   | dstEof c =>
     simp only [Handler.apply, Handler.dstEof]
-    exact countOk_closeConn (h := { h with dstOpen := h.dstOpen.filter (· != c.serial) }) ⟨hc.nodup, hc.count⟩ _ _
+    exact countOk_closeRecord (h := { h with dstOpen := h.dstOpen.filter (· != c.serial) }) ⟨hc.nodup, hc.count⟩ _
 
-/-- **Counter matches the map** for every `Distinct` history; so once the map is empty again the
-    counter is zero and no connection limit is consumed by tunnels that no longer exist. -/
+/-- **Counter matches the map** for EVERY history of the repaired handlers — opens under ids that
+    still have a record (reconnected peer, duplicate open, colliding peers) included. -/
 theorem C17_count_matches (ops : List Op) :
-    ∀ h : Handler, CountOk h → okRun h ops → CountOk (h.run ops) := by
+    ∀ h : Handler, CountOk h → CountOk (h.run ops) := by
   induction ops with
-  | nil => intro h hc _; exact hc
+  | nil => intro h hc; exact hc
   | cons o os ih =>
-    intro h hc hr
-    exact ih _ (countOk_apply hc o hr.1) hr.2
+    intro h hc
+    exact ih _ (countOk_apply hc o)
 
-theorem C17_partial (ops : List Op) (hr : okRun {} ops) (hempty : (({} : Handler).run ops).conns = []) :
-    (({} : Handler).run ops).count = 0 := by
-  have := (C17_count_matches ops {} ⟨List.nodup_nil, rfl⟩ hr).count
-  rw [this, hempty]; rfl
-
-/-- The statement for the handlers: whenever no connection record is left, the counter is zero. -/
+/-- The statement for the handlers: whenever no connection record is left, the counter is zero —
+    no connection limit is consumed by tunnels that no longer exist. -/
 def C17_statement : Prop :=
   ∀ ops : List Op, (({} : Handler).run ops).conns = [] → (({} : Handler).run ops).count = 0
 
-/-- Two peers open stream id 1 at the same exit: the second record overwrites the first, the
-    counter is 2 for one record; after the only remaining record is closed the counter stays 1. -/
-theorem C17_refuted : ¬ C17_statement := by
-  intro h
-  have := h [.opened 1 1, .opened 1 2, .close 1 2] (by decide)
-  revert this
-  decide
+theorem C17_handlers_return_to_empty : C17_statement := by
+  intro ops hempty
+  have := (C17_count_matches ops {} ⟨List.nodup_nil, rfl⟩).count
+  rw [this, hempty]; rfl
+
+/-- **Teardown by record.**  A read loop that ends (destination EOF) removes only its own record:
+    when the id meanwhile belongs to a newer record, that record — and the counter — are untouched. -/
+theorem C17_late_teardown_spares_newer_record (h : Handler) (c cur : Conn)
+    (hcur : h.conns.get c.id = some cur) (hne : cur.serial ≠ c.serial) :
+    (h.dstEof c).1.conns = h.conns ∧ (h.dstEof c).1.count = h.count ∧ (h.dstEof c).2 = [.fin c.peer c.id] := by
+  simp [Handler.dstEof, Handler.closeRecord, hcur, hne]
+
+/-- The honest re-use: a peer reconnects and opens stream id 1 again while its earlier exit
+    connection is still tracked; later the OLD destination closes.  The new tunnel survives and the
+    counter is 1 (the pinned code counted 2 and let the old read loop delete the new record). -/
+example :
+    let h := (({} : Handler).run [.opened 1 1, .opened 1 1, .dstEof (Conn.mk' 1 1 0)])
+    h.count = 1 ∧ (h.conns.get 1).map (·.serial) = some 1 := by decide
 
 /-- … and in the relay table a collision leaves an orphan after the peers are gone: `DeleteByPeer`
     walks `byUpstream` only. -/
@@ -331,7 +354,8 @@ theorem C17_limit (h : Handler) (id peer : Nat) (hm : h.max > 0) (hfull : h.coun
     (h.tryOpen id peer) = (h, [.err peer id]) := by
   simp [Handler.tryOpen, Handler.openFail, hm, hfull]
 
-example : okRun {} [.opened 1 1, .openFail 1 2, .opened 3 2, .close 1 1, .dstEof (Conn.mk' 3 2 1)] := by
-  simp [okRun, Handler.apply, Handler.opened, Handler.openFail, Handler.closeConn, Handler.remove, Map.get, Map.set, Map.del]
+/-- non-vacuity: a history that empties the map again (with a refused and a displacing open). -/
+example : (({} : Handler).run [.opened 1 1, .openFail 1 2, .opened 1 2, .opened 3 2, .close 1 1,
+    .dstEof (Conn.mk' 3 2 2)]).conns = [] := by decide
 
 end MM.C17
